@@ -62,7 +62,7 @@ func RunMutant(m Mutant, repo, verif string) MutantResult {
 	}
 	mut := strings.Replace(string(src), m.Find, m.Replace, 1)
 	rep, err := RunCheck(CheckOpts{Prop: m.Prop, Tier: "quick", RepoDir: repo, VerifDir: verif, Overlay: map[string][]byte{path: []byte(mut)},
-		NoEvid: true, OutDir: filepath.Join(verif, "out", "selftest", m.ID)})
+		NoEvid: true, Fast: true, OutDir: filepath.Join(verif, "out", "selftest", m.ID)})
 	if err != nil {
 		res.Detail = "check error: " + err.Error()
 		return res
